@@ -4,6 +4,19 @@ import json, os
 HERE = os.path.dirname(os.path.dirname(os.path.abspath(__file__)))
 
 CLAIMED = {
+ 'C14': dict(
+   text='Coq theorems (partial) about the model parser (lexer of parse.y byte for byte, recursive-descent recogniser of the grammar, semantic checks, macro table, tilde '
+        'expansion, regcomp as oracle): whatever else the file contains, an accepted configuration satisfies in every rule of every block the semantic rules (discard / reject '
+        'alone, every rule has an action, attachment blocks only exec, no empty block, reject only under stdin, exec body only with stdin, patterns compile and never carry l '
+        'and u, ages fit 32 bits) - so one defective rule rejects the whole file; integers never exceed 2^32-1 and strings / patterns never exceed the lexeme buffer; a rejected '
+        'configuration makes main exit non-zero with no message examined. Tied by config_parse (sanitizer build, forked per file) vs the extracted model on grammar-generated '
+        'configurations (must be accepted, trees equal), 39 classes of invalidating edits at random / every applicable position (must be rejected with a file:line: diagnostic), '
+        'byte-level mutations (accept/reject and tree must agree; no crash or hang), and the binary on rejected files with a populated maildir (non-zero exit, diagnostic, nothing '
+        'changed, no command run).',
+   note='NOT proved: the converse (every grammar-generated well-formed file is accepted) and anything about the yacc automaton (error recovery, termination on arbitrary '
+        'bytes): both are covered by the differential runs only. The model stops at the first diagnostic; the number and text of later diagnostics are not modelled.',
+   technique='Coq proof (induction over the fuelled mutual recogniser via factored bodies, invariant on the accumulated tree) + differential runs with a defect catalogue',
+   ref='DESIGN 6 C14'),
  'C16': dict(
    text='Coq theorems about the hand-written model of decode.c: base64_decode = RFC 4648 spec for every byte string, '
         'target bound branches unreachable, QP inverts every QP rendering and never fails, RFC 2047 total / raw on malformed '
